@@ -34,7 +34,8 @@ for sid in ids:
         if a.scratch:
             env['SEDVERIF_REPO'] = tree
         out = {}
-        for p in [pid] + [x for x in a.props.split(',') if x]:
+        # `also_props` in meta.json: checks of other properties known to report this change (run with it every time)
+        for p in [pid] + [x for x in a.props.split(',') if x] + [x for x in meta.get('also_props', []) if x not in a.props.split(',')]:
             t0 = time.time()
             c = subprocess.run([V + '/check', p, '--tier', a.tier], cwd=V, env=env, capture_output=True, text=True)
             viol = [l for l in c.stdout.splitlines() if l.startswith('VIOLATION')]
@@ -47,9 +48,12 @@ for sid in ids:
             subprocess.run(['git', '-C', '/repo', 'checkout', '--', '.'])
     print(sid, res[sid], flush=True)
 # merge into the record of earlier runs (one entry per seeded change: its latest run)
-try:
-    allres = json.load(open(V + '/seeded/_last_run.json'))
-except Exception:
-    allres = {}
-allres.update(res)
-json.dump(allres, open(V + '/seeded/_last_run.json', 'w'), indent=1, sort_keys=True)
+import fcntl
+with open(V + '/seeded/.last_run.lock', 'w') as lk:     # several runs (disjoint properties) may finish together
+    fcntl.flock(lk, fcntl.LOCK_EX)
+    try:
+        allres = json.load(open(V + '/seeded/_last_run.json'))
+    except Exception:
+        allres = {}
+    allres.update(res)
+    json.dump(allres, open(V + '/seeded/_last_run.json', 'w'), indent=1, sort_keys=True)
